@@ -40,7 +40,7 @@ ASSUMPTIONS = [
 QUERIES = [
     ("valid", "$.a"), ("valid", "$..a"), ("valid", "$[?@.a == 1]"), ("valid", "$[?match(@.b, 'x.*')]"), ("valid", "$.é"),
     ("valid", "$"), ("valid", "$[?@.a == @.b]"), ("valid", "$[?@ != $[0]]"), ("valid", "$[?@.a < @.b || length(@.a) == 1]"),
-    ("valid", "$..[-1]"), ("valid", "$[?@[-1] == 2]"),
+    ("valid", "$..[-1]"), ("valid", "$[?@[-1] == 2]"), ("valid", "$[::0]"), ("valid", "$..[0, 1:3:0, -1]"),
     ("syntax", "$["), ("syntax", "$.a b"), ("type", "$[?count(1) == 1]"), ("name", "$[?nosuch(@.a)]"),
     ("index", "$[9007199254740992]"), ("overflow", "$[?@ == 1e400]"), ("syntax", "$[?@ == 'a\x01']"),
     # invalid queries that contain line breaks: the diagnostic must still be one line
